@@ -17,6 +17,7 @@ type Clause struct {
 	Line int
 	File string
 	Idx  int // ordinal of this kind within its owner
+	Tag  string // stable name for generated clauses (overrides Idx in obligation names)
 }
 
 type LoopSpec struct {
@@ -40,10 +41,22 @@ type FuncSpec struct {
 	Opaque    bool // callers see only contract even if small
 	Flags     map[string]string
 	Lets      []*Clause // Kind holds the bound name
+	Foreach   []*Foreach
+	ParamNames []string // for interface-method contracts: names of the method's parameters
 	PanicOK   []string  // anchors (substrings) of panic sites this contract allows
 	Extends   string    // name of the contract whose clauses are inherited
 	File      string
 	Line      int
+}
+
+// Foreach is a postcondition generated per integer-kinded field of a struct
+// type, so that a field added later without being handled fails.
+type Foreach struct {
+	Type     string
+	Except   []string
+	Template string
+	Line     int
+	File     string
 }
 
 type PureFunc struct {
@@ -74,6 +87,7 @@ type SpecFile struct {
 	Funcs  map[string]*FuncSpec
 	Pures  map[string]*PureFunc
 	Axioms []*Axiom
+	Ghosts map[string]*GhostVar
 }
 
 func NewSpecFile() *SpecFile {
@@ -82,7 +96,7 @@ func NewSpecFile() *SpecFile {
 
 var clauseKeywords = map[string]bool{"requires": true, "ensures": true, "invariant": true, "decreases": true,
 	"assigns": true, "loop": true, "may_panic": true, "trusted": true, "pure": true, "abstract": true, "axiom": true,
-	"func": true, "noinline": true, "opaque": true, "flag": true, "let": true, "may_panic_at": true, "extends": true}
+	"func": true, "noinline": true, "opaque": true, "flag": true, "let": true, "may_panic_at": true, "extends": true, "foreach_field": true, "ghost": true}
 
 // ParseSpecFile reads //@ lines from path and adds them to sf.
 func (sf *SpecFile) ParseSpecFile(path string) error {
@@ -133,12 +147,30 @@ func (sf *SpecFile) ParseSpecFile(path string) error {
 			return &Clause{Kind: kind, Text: r.text, Expr: e, Line: r.line, File: path}, nil
 		}
 		switch r.kw {
+		case "ghost":
+			fs := strings.Fields(r.text)
+			if len(fs) < 3 || fs[0] != "var" {
+				return fmt.Errorf("%s: expected 'ghost var name Type'", loc)
+			}
+			if sf.Ghosts == nil {
+				sf.Ghosts = map[string]*GhostVar{}
+			}
+			sf.Ghosts[fs[1]] = &GhostVar{Name: fs[1], Type: strings.Join(fs[2:], " "), File: path, Line: r.line}
+			cur, curLoop = nil, nil
 		case "func":
 			name := strings.TrimSpace(r.text)
+			var pnames []string
+			if i := strings.LastIndex(name, "("); i > 0 && strings.HasSuffix(name, ")") && strings.LastIndex(name, ".") < i {
+				// trailing "(a, b)": parameter names for interface-method contracts
+				for _, p := range strings.Split(name[i+1:len(name)-1], ",") {
+					pnames = append(pnames, strings.TrimSpace(p))
+				}
+				name = strings.TrimSpace(name[:i])
+			}
 			if _, dup := sf.Funcs[name]; dup {
 				return fmt.Errorf("%s: duplicate contract for %s", loc, name)
 			}
-			cur = &FuncSpec{Name: name, Loops: map[int]*LoopSpec{}, File: path, Line: r.line, Flags: map[string]string{}}
+			cur = &FuncSpec{Name: name, Loops: map[int]*LoopSpec{}, File: path, Line: r.line, Flags: map[string]string{}, ParamNames: pnames}
 			sf.Funcs[name] = cur
 			curLoop = nil
 		case "pure", "abstract":
@@ -227,6 +259,22 @@ func (sf *SpecFile) ParseSpecFile(path string) error {
 				}
 			case "may_panic":
 				cur.MayPanic = true
+			case "foreach_field":
+				// foreach_field <Type> [except A,B] ensures <template with $f>
+				txt := strings.TrimSpace(r.text)
+				i := strings.Index(txt, " ensures ")
+				if i < 0 {
+					return fmt.Errorf("%s: foreach_field needs 'ensures <template>'", loc)
+				}
+				head, tmpl := strings.Fields(txt[:i]), strings.TrimSpace(txt[i+9:])
+				fe := &Foreach{Type: head[0], Template: tmpl, Line: r.line, File: path}
+				if len(head) >= 3 && head[1] == "except" {
+					for _, e := range strings.Split(strings.Join(head[2:], ""), ",") {
+						fe.Except = append(fe.Except, strings.TrimSpace(e))
+					}
+				}
+				curLoop = nil
+				cur.Foreach = append(cur.Foreach, fe)
 			case "may_panic_at":
 				cur.PanicOK = append(cur.PanicOK, strings.TrimSpace(r.text))
 			case "extends":
